@@ -127,9 +127,24 @@ func (c Cfg) Listeners() []Listener {
 }
 
 // Expect returns whether key k must authenticate on l and with which ID it is attributed.
+// canonCipher: the two spellings of a cipher name name the same cipher.
+func canonCipher(name string) string {
+	switch strings.ToUpper(name) {
+	case "AEAD_CHACHA20_POLY1305", "CHACHA20-IETF-POLY1305":
+		return "chacha20-ietf-poly1305"
+	case "AEAD_AES_256_GCM", "AES-256-GCM":
+		return "aes-256-gcm"
+	case "AEAD_AES_192_GCM", "AES-192-GCM":
+		return "aes-192-gcm"
+	case "AEAD_AES_128_GCM", "AES-128-GCM":
+		return "aes-128-gcm"
+	}
+	return name
+}
+
 func (l Listener) Expect(k Key) (bool, string) {
 	for _, c := range l.Keys {
-		if c.Cipher == k.Cipher && c.Secret == k.Secret {
+		if canonCipher(c.Cipher) == canonCipher(k.Cipher) && c.Secret == k.Secret {
 			return true, c.ID
 		}
 	}
